@@ -312,13 +312,34 @@ func genSpec(r *kit.Rng, maxN int) spec {
 
 func fbits(f float64) string { return strconv.FormatUint(math.Float64bits(f), 10) }
 
-// digestOf returns the t-digest owned by the LatencyMetrics (nil before the first Add).
-func digestOf(m *vegeta.Metrics) *tdigest.TDigest {
+// estimatorUnreadable counts how often the estimator could not be read (nil is not counted): another
+// type than lib/metrics.go's tdigestEstimator{*tdigest.TDigest}, an interface value, …
+var estimatorUnreadable int
+
+// digestOf is the ONE place where the harness reflects into LatencyMetrics: it returns the t-digest
+// owned by the estimator, or nil when there is none (before the first Add) or when the estimator is not
+// readable as a tdigestEstimator{*tdigest.TDigest} — never panics.
+func digestOf(m *vegeta.Metrics) (td *tdigest.TDigest) {
+	defer func() {
+		if r := recover(); r != nil {
+			estimatorUnreadable++
+			td = nil
+		}
+	}()
 	v := reflect.ValueOf(&m.Latencies).Elem().FieldByName("estimator")
-	if !v.IsValid() || v.IsNil() {
+	if !v.IsValid() || v.Kind() != reflect.Interface || v.IsNil() {
 		return nil
 	}
-	p := v.Elem().Elem().Field(0) // tdigestEstimator{*tdigest.TDigest}
+	pv := v.Elem() // *tdigestEstimator
+	if pv.Kind() != reflect.Ptr || pv.IsNil() || pv.Elem().Kind() != reflect.Struct || pv.Elem().NumField() < 1 {
+		estimatorUnreadable++
+		return nil
+	}
+	p := pv.Elem().Field(0)
+	if p.Kind() != reflect.Ptr || p.IsNil() || p.Type() != reflect.TypeOf((*tdigest.TDigest)(nil)) || pv.Elem().NumField() != 1 {
+		estimatorUnreadable++
+		return nil
+	}
 	return (*tdigest.TDigest)(unsafe.Pointer(p.Pointer()))
 }
 
@@ -1006,6 +1027,9 @@ func runC11(c *run.Ctx, s *kit.Summary) {
 		worst[d] = fmt.Sprintf("%.3f%% of n", 100*w)
 	}
 	s.Extra["worst_rank_distance_beyond_window_by_distribution"] = worst
+	if estimatorUnreadable > 0 {
+		s.CountN("estimator:not_readable (other type; model comparison and centroid checks skipped)", estimatorUnreadable)
+	}
 	s.Extra["max_centroids_after_process (maxProcessed = 200)"] = k.maxCen
 }
 
